@@ -8,6 +8,12 @@ SAN = ['-fsanitize=address,undefined', '-fno-sanitize-recover=undefined']
 # One-TU harnesses: name -> source, flags.
 SINGLES = {
     'endian': dict(src='harness/endian.cc', flags=['-O2']),
+    'variant': dict(src='harness/variant.cc', flags=SAN + ['-O1']),
+    'optres': dict(src='harness/optres.cc', flags=SAN + ['-O1']),
+    'bounded': dict(src='harness/bounded.cc', flags=SAN + ['-O1']),
+    'uhandle': dict(src='harness/uhandle.cc', flags=SAN + ['-O1']),
+    'rw': dict(src='harness/rw.cc', flags=SAN + ['-O1']),
+    'threads': dict(src='harness/threads.cc', flags=['-fsanitize=thread', '-O1']),
 }
 SETUP_EXTRA = []
 
@@ -136,3 +142,94 @@ PROPS['C08'] = dict(level='exploration', jobs=table_jobs,
                     'reference decoder plus the named categories (InvalidTableHash, DuplicateTableEntry, rejection of undersized entries, acceptance and exact consumption of '
                     'padded / permuted tables) and agreement of 4 readers. Non-trivial = the mutation hit an entry that is not the last one.',
                     assumptions=['duplicates of deleted/unknown ids carry no accept/reject expectation (counted under excluded)'])
+
+
+def fungible_jobs(b, prop, tier, seed):
+    jobs = []
+    pools = [(1, 48, 3)] if tier == 'quick' else [(1, 48, 3), (seed + 1000, 300, 4)]
+    for ps, cnt, depth in pools:
+        bn = b.build_fungible(ps, cnt, depth)
+        if not bn:
+            return None
+        n = 8 if cnt <= 48 else 16
+        for i in range(n):
+            jobs.append(_job('fungible:%d:%d:%d' % (ps, cnt, depth), bn, ['--prop', prop, '--tier', tier, '--seed', str(seed), '--shard', '%d/%d' % (i, n)], 'fung_%d_%02d' % (ps, i)))
+    return jobs
+
+
+SETUP_EXTRA.append(lambda b: b.build_fungible(1, 48, 3))
+
+PROPS['C09'] = dict(level='exploration', jobs=fungible_jobs,
+                    rule='Program generator verif/gen_fungible.py: type A from the type grammar (depth <= 3 quick / 4 thorough), B derived by applying at every node at most one '
+                    'documented fungibility rule (expected fungible iff the two reference schemas are wire-compatible) or a near-miss edit (no expectation); 48 pairs quick, +300 '
+                    'from VERIF_SEED in thorough. Static checks per pair: reflexive, symmetric, trait true => schemas wire-compatible, documented pairs true, Protocol<A> admits B. '
+                    'Dynamic check whenever the trait is true: rapidcheck-generated values of A that fit B are written as A, read as B (must succeed, same value, all bytes consumed) '
+                    'and re-encoded as B (same bytes up to MAP order), and the same with A and B swapped. Non-trivial = trait true for A != B and a value with a non-empty container.',
+                    assumptions=['pairs for which IsFungible<A,B> does not compile are outside the domain and counted under excluded'])
+
+
+def c15_jobs(b, prop, tier, seed):
+    a = codec_jobs(b, prop, tier, seed)
+    u = single_jobs('uhandle', 1, 4)(b, prop, tier, seed)
+    if a is None or u is None:
+        return None
+    return a + u
+
+
+PROPS['C15']['jobs'] = c15_jobs
+PROPS['C15']['rule'] += (' Part (b): model-based operation sequences over several UniqueHandle<CountingPolicy> objects (construct, default, move-construct, move-assign incl. self and '
+                         'from temporaries, release, close, get, bool, destroy): exhaustive up to length 4 (quick) / 5 (thorough) on 2 slots plus rapidcheck sequences up to 60 ops on 4 slots; '
+                         'the close log must equal the model after every step. Non-trivial there = a move-assignment over a non-empty handle.')
+
+OPSEQ = ('Model-based operation sequences: each op is applied to the real libnop objects and to an explicit model, the invariant is checked after every step; all sequences up to a bounded '
+         'length over a reduced alphabet are enumerated, longer sequences come from rapidcheck-generated choice tapes (shrunk on failure). ')
+PROPS['C12'] = dict(level='exploration', jobs=single_jobs('variant', 1, 8),
+                    rule=OPSEQ + 'Slots of Variant<Tracked<1>,Tracked<2>,int,string>, Variant<Tracked<2>,Tracked<1>> and Variant<Tracked<1>,string>; 20 op kinds (construct, copy/move construct and assign '
+                    'incl. self and across Variant types, element/convertible/EmptyVariant assignment, Become in and out of range with and without arguments, Visit, get, destroy, armed throwing constructor). '
+                    'Exhaustive to length 3 (quick) / 4 (thorough) on 3 slot pairs, random sequences up to 60 ops. Non-trivial = an assignment between different alternatives or a throwing constructor.',
+                    assumptions=['state after a throwing element constructor: unchanged or empty are both accepted', 'payload of a moved-from std::string is not checked'])
+PROPS['C13'] = dict(level='exploration', jobs=single_jobs('optres', 1, 8),
+                    rule=OPSEQ + '14 slots of Optional / Entry / Result / Result<E,void> / Status over lifetime-tracking and trivial element types; all constructors, assignments (incl. self, converting, '
+                    'from error / None), clear, take, observers, destroy, armed throwing constructor. Plus all 576 operand-state x operator cases of the Optional comparisons for three element types and '
+                    'GetErrorMessage for every ErrorStatus. Non-trivial = assignment over a non-empty target from a non-empty source, a move-assignment, or a throwing constructor.',
+                    assumptions=['state after a throwing element constructor: either outcome accepted', 'move-construction sources are not required to be emptied (only move-assignment is promised)'])
+PROPS['C16'] = dict(level='exploration', jobs=single_jobs('bounded', 1, 8),
+                    rule=OPSEQ + 'BoundedReader<LogReader> / BoundedWriter<LogWriter> with limits {0,1,2,7,8,64,2^64-1,random}, wrapped objects with their own capacity and an optional scripted failure; '
+                    'ops Ensure/Prepare, byte and block Read/Write (widths 1/2/4/8, counts 0..9), Skip, ReadPadding/WritePadding with sizes 0, rem-1, rem, rem+1, 2^63, 2^64-rem, 2^64-1. '
+                    'Non-trivial = a call landing exactly on the limit and one crossing it, or a wrapped failure followed by further calls.',
+                    assumptions=[])
+PROPS['C17'] = dict(level='exploration', jobs=single_jobs('rw', 1, 8),
+                    rule=OPSEQ + '17 reader configurations (Buffer, Pedantic, Stream over stringstream and ifstream, Fd, BoundedReader over each with limit =,<,> source) and 10 writer configurations '
+                    '(Buffer, Pedantic, Constexpr, Stream, Fd, BoundedWriter over each) are driven with the same Read/Skip/Ensure resp. Prepare/Write/Skip sequences for 13+ element types and compared '
+                    'with a cursor model up to and including the first failing call; plus 54 constexpr constants serialized at compile time and compared byte for byte with run-time serialization. '
+                    'Non-trivial = the sequence reaches a first failing call after a successful multi-byte call.',
+                    assumptions=['FdReader/FdWriter have no Skip: Skip ops are no-ops for them'])
+PROPS['C19'] = dict(level='exploration', jobs=single_jobs('threads', 2, 16),
+                    rule='Programs for 2-8 threads generated from rapidcheck tapes in the main thread (round trips over 8 types, table cross-version reads, Variant/Optional bursts with tracked elements, '
+                    'RPC calls on a thread-owned connection, ThreadLocal construct/Initialize/Get/modify/Clear on 7 shared (T,Slot) instantiations); each program runs R=5 (quick) / 50 (thorough) times '
+                    'behind a start barrier with hash-derived yield/spin perturbation under ThreadSanitizer; every thread log must equal the sequential model run. '
+                    'Non-trivial = two threads touch the same ThreadLocal (T,Slot) with a Clear or re-Initialize, or two threads run RPC/table traffic concurrently.',
+                    assumptions=['the harness only perturbs the schedule; TSan happens-before detection compensates for unsynchronised sharing, not for lock-protected logical sharing',
+                                 'Get() on an empty ThreadLocal is never generated (dereferences an empty Optional)'])
+
+
+def siphash_jobs(b, prop, tier, seed):
+    jobs = []
+    pools = [(1, 40)] if tier == 'quick' else [(1, 40), (seed + 7, 100)]
+    for ps, cnt in pools:
+        bn = b.build_siphash(ps, cnt)
+        if not bn:
+            return None
+        n = 2 if tier == 'quick' else 8
+        for i in range(n):
+            jobs.append(_job('siphash:%d:%d' % (ps, cnt), bn, ['--prop', prop, '--tier', tier, '--seed', str(seed), '--shard', '%d/%d' % (i, n)], 'siphash_%d_%02d' % (ps, i)))
+    return jobs
+
+
+SETUP_EXTRA.append(lambda b: b.build_siphash(1, 40))
+PROPS['C18'] = dict(level='exploration', jobs=siphash_jobs,
+                    rule='Independent SipHash-2-4 (written from the paper, self-checked against the 64 official vectors) vs nop::SipHash::Compute for every length 0..600 x rapidcheck-generated contents and '
+                    '128-bit keys, through BlockReader<uint8_t> and through const char data (the form the macros use); 54 string literals forced to compile time vs run time vs reference; generated '
+                    'declarations (verif/gen_consts.py: NOP_TABLE_NS tables, NOP_INTERFACE/NOP_INTERFACE32 interfaces with NOP_METHODs, names incl. UTF-8) whose EntryList hash, wire hash, interface hash '
+                    'and selectors are compared with values computed in Python under keys pinned as literals. Non-trivial = length >= 9 with length%8 != 0, or any byte >= 0x80.',
+                    assumptions=['the Python and C++ reference implementations are independent of the library and of each other'])
